@@ -103,6 +103,7 @@ func (e *Engine) intrinsic(st *State, fr *Frame, x *ssa.Call, callee *ssa.Functi
 		return []Val{itoaString(args[0].(VInt).T)}, true
 	case "time.Now":
 		t := e.fresh("now", IntS)
+		st.calls = append(st.calls, callRec{target: "Now", res: []Val{VTime{t}}, seq: len(st.calls)})
 		return []Val{VTime{t}}, true
 	case "(time.Time).Sub":
 		a, b := args[0].(VTime).T, args[1].(VTime).T
@@ -373,6 +374,10 @@ func (e *Engine) initState(pkg *ssa.Package) *globalState {
 						if m, ok := v.(VMap); ok {
 							m.Conc = conc[m.Ref.Key()]
 							v = m
+						}
+						if pv, ok := v.(VPtr); ok && pv.L != nil && pv.L.Kind == LCell && len(pv.L.Path) == 0 {
+							// `var X = new(T)` / `&T{...}`: a constant object (its contents are left unknown)
+							v = VPtr{L: &Loc{Kind: LHeap, Ref: e.newObject(st), Base: pv.Elem}, Elem: pv.Elem}
 						}
 						gs.vals[g] = v
 						return
